@@ -304,7 +304,7 @@ Proof.
           intros H; injection H as <-. cbn [sp_slot sp_sub sp_op sp_repo].
           split; [|reflexivity]. rewrite (p_slot_some _ _ _ Ha). cbn [nonempty_opt app].
           rewrite Hb. destruct o as [x|]; [subst x; reflexivity | reflexivity]. }
-      destruct (lastc (c :: t)) as [l|] eqn:El.
+      unfold slot_op_split. destruct (lastc (c :: t)) as [l|] eqn:El.
       * destruct (N.eqb_spec l c_eq) as [->|Hl]; cbn [fst snd].
         -- apply Hso; [reflexivity|]. now apply lastc_some.
         -- apply Hso; [exact I|]. cbn [opt_str]. now rewrite app_nil_r.
